@@ -37,9 +37,16 @@ def run(ctx):
                  ("R05.7", "record content"), ("R05.8", "synchronous delivery")):
         ctx.rule(r, d)
     wp = os.path.join(VERIF, "witness", "tl_C05.cpp")
-    witness.apply(ctx, lambda t: "R05.6" if t and t[0] == "w" and 6 <= int(re.sub(r"\D", "", t)) <= 14 else ("R05.4" if t in ("w15", "w16") else "R05.1"), wp)
+    # the library's own index-sequence generator is witnessed when there is one (std::index_sequence is trusted)
+    own_seq = any(k.startswith("nitro::lang::helper::gen_seq") for k in prog.classes)
+    wdef = ("VERIF_HAS_GEN_SEQ",) if own_seq else ()
+    witness.apply(ctx, lambda t: "R05.6" if t and t[0] == "w" and 6 <= int(re.sub(r"\D", "", t)) <= 14 else ("R05.4" if t in ("w15", "w16") else "R05.1"), wp, defines=wdef)
+    if not own_seq:
+        for o in ctx.obs:
+            if o.rule == "R05.6" and re.fullmatch(r"w(6|7|8|9|1[0-4])", o.construct or ""):
+                o.why = "not applicable: no nitro::lang::helper::gen_seq in this tree (index sequence from the standard library)"
     if ctx.tier == "thorough":
-        witness.apply(ctx, lambda t: "R05.1", wp, compiler="g++", label="g++")
+        witness.apply(ctx, lambda t: "R05.1", wp, compiler="g++", label="g++", defines=wdef)
 
     fns = [f for f in prog.fns.values() if f.has_cfg and f.file.endswith(C10.STREAM_HPP) and f.is_pattern]
     cls = prog.cls(SS)
